@@ -104,6 +104,33 @@ def run(ck: Check):
         cs.obs(tr, "stamps_are_the_grid", float(np.max(np.abs(ts - grid))) if ts.shape == grid.shape else 1.0)
         ex = np.column_stack([np.cos(ts - th0), -np.sin(ts - th0)])
         cs.obs(tr, "samples_on_flow", float(np.max(np.abs(ys[:, [0, ip]] - ex))) if len(ts) == len(ys) else 1.0)
+    # a non-zero epoch: _propagate_dynsys(t0, tf) samples the grid linspace(t0, tf) of ELAPSED integrator time and stamps it with
+    # the direction (forward * grid): the k-th state is the flow over forward * (grid[k] - t0) from the initial state, and the
+    # zero-length call at the same epoch carries the same first stamp
+    for (method, order, hamlike), fwd in itertools.product(cases[:5] + cases[6:7], (1, -1)):
+        dim, ip = (6, 3) if hamlike else (2, 1)
+        y0 = np.zeros(dim)
+        y0[0], y0[ip] = math.cos(th0), math.sin(th0)
+        t0e, tfe, steps = 0.75, 2.25, 601      # (the fixed-step drivers integrate ON this grid: h = 0.0025)
+        label = f"_propagate_dynsys|{method}{order}|{'ham' if hamlike else 'generic'}|forward={fwd}|epoch t0={t0e}"
+        kw = dict(rtol=1e-12, atol=1e-12) if method == "adaptive" else {}
+        try:
+            sol = _propagate_dynsys(ham if hamlike else rot, y0.copy(), t0e, tfe, forward=fwd, steps=steps, method=method, order=order, **kw)
+            zero = _propagate_dynsys(ham if hamlike else rot, y0.copy(), t0e, t0e, forward=fwd, steps=3, method=method, order=order, **kw)
+        except Exception as ex:  # noqa
+            ck.notes.append(f"{label} raised {type(ex).__name__}: {str(ex)[:120]} (a rejection is allowed)")
+            continue
+        ts, ys = np.asarray(sol.times, dtype=float), np.asarray(sol.states, dtype=float)
+        grid = np.linspace(t0e, tfe, steps)
+        bnd = -35 if method == "symplectic" else -90
+        tr = cs.trace(label, {"stamps_are_the_grid": -140, "samples_on_flow": bnd, "zero_span_same_epoch": -140},
+                      {"method": method, "order": order, "ham": hamlike, "forward": fwd, "part": "non-zero-epoch"})
+        ck.count(("propagate-epoch", label), True)
+        cs.obs(tr, "stamps_are_the_grid", float(np.max(np.abs(ts - fwd * grid))) if ts.shape == grid.shape else 1.0)
+        el = fwd * (grid - t0e)
+        ex = np.column_stack([np.cos(el - th0), -np.sin(el - th0)])
+        cs.obs(tr, "samples_on_flow", float(np.max(np.abs(ys[:, [0, ip]] - ex))) if len(ys) == len(grid) else 1.0)
+        cs.obs(tr, "zero_span_same_epoch", abs(float(np.asarray(zero.times, dtype=float)[0]) - float(ts[0])))
     cs.decide(key_fn=lambda tr, n: f"_propagate_dynsys|{tr['data']['method']}|{'ham' if tr['data']['ham'] else 'generic'}|"
                                    f"forward={tr['data']['forward']}|{tr['data'].get('part', 'terminal-event')}|{n}")
     cs.selftest()
